@@ -539,5 +539,6 @@ func ReadMinimalKey(rd io.Reader) (key.Key, error) {
 	if err != nil {
 		return nil, err
 	}
-	return key.New(key.MinecraftNamespace, str), nil
+	// A minimal key only omits the default namespace; "ns:value" keeps its own.
+	return parseIdentifierKey(str), nil
 }
